@@ -52,6 +52,10 @@ where
     }
 
     fn last(&self) -> Option<T> {
+        if self.q_vals.is_empty() {
+            // nothing has been delivered yet
+            return None;
+        }
         let mut sx = T::zero();
         let mut sy = T::zero();
         let mut sxx = T::zero();
